@@ -2,11 +2,19 @@
 //!
 //! argv[1] = case file.  Lines (strings are `x<hex of utf-8>`, absent values `-`):
 //!   logmax <0..5>                               LogTracer::builder().with_max_level
+//!   init <builder|all|default|init|filter|new>  how the logger is installed: builder().with_max_level(logmax)
+//!                                               .ignore_crate(..)* .init() | the same with .ignore_all(list) | builder()
+//!                                               without with_max_level | LogTracer::init() | init_with_filter(logmax) |
+//!                                               LogTracer::new() + log::set_boxed_logger + log::set_max_level(logmax)
 //!   ignore <str>                                .ignore_crate (repeatable)
 //!   collector <none|scoped|global> <hint -1|0..5> <default 0..5> [<target>=<0..5> ...]
 //!   dangling <hint -1|0..5>                     a second, accept-all Dispatch that is created but never installed
 //!   rec <D|M|F> <level 1..5> <target> <msg> <file|-> <line|-> <module|->
 //!   foreign <level 1..5> <target str>           an event on the harness' own callsite that looks like a log event
+//!   enq <level 1..5> <target>                   log::logger().enabled(&metadata)        (what log_enabled! asks)
+//!   cvm <level 1..5> <target>                   log::Metadata::as_trace()
+//!   cvr <level 1..5> <target> <file|-> <line|-> <module|->      log::Record::as_trace()
+//!   cvl <level 1..5> <target>                   tracing Metadata::as_log()
 //! Entry D = `log::logger().log(&record)`, M = the real `log::log!` macro (file/line/module are the harness' own),
 //! F = `tracing_log::format_trace(&record)`.
 //!
@@ -22,7 +30,7 @@ use tracing_core::{
     metadata::Kind,
     span, Event, Level, LevelFilter, Metadata,
 };
-use tracing_log::{LogTracer, NormalizeEvent};
+use tracing_log::{AsLog, AsTrace, LogTracer, NormalizeEvent};
 
 fn hex(s: &str) -> String {
     let mut o = String::with_capacity(2 * s.len() + 1);
@@ -258,6 +266,7 @@ fn main() {
     let mut ignore: Vec<String> = vec![];
     let mut coll: Option<(String, i32, u8, Vec<(String, u8)>)> = None;
     let mut dangling: Option<i32> = None;
+    let mut init = String::from("builder");
     let mut items: Vec<Vec<String>> = vec![];
     for line in text.lines() {
         let t: Vec<String> = line.split_whitespace().map(|s| s.to_string()).collect();
@@ -266,6 +275,7 @@ fn main() {
         }
         match t[0].as_str() {
             "logmax" => logmax = t[1].parse().unwrap(),
+            "init" => init = t[1].clone(),
             "ignore" => ignore.push(unhex(&t[1])),
             "collector" => {
                 let rules = t[4..]
@@ -278,16 +288,35 @@ fn main() {
                 coll = Some((t[1].clone(), t[2].parse().unwrap(), t[3].parse().unwrap(), rules));
             }
             "dangling" => dangling = Some(t[1].parse().unwrap()),
-            "rec" | "foreign" => items.push(t),
+            "rec" | "foreign" | "enq" | "cvm" | "cvr" | "cvl" => items.push(t),
             other => panic!("unknown line kind {}", other),
         }
     }
     // the logger
-    let mut b = LogTracer::builder().with_max_level(log_filter_of(logmax));
-    for i in &ignore {
-        b = b.ignore_crate(i.clone());
+    match init.as_str() {
+        "builder" => {
+            let mut b = LogTracer::builder().with_max_level(log_filter_of(logmax));
+            for i in &ignore {
+                b = b.ignore_crate(i.clone());
+            }
+            b.init().expect("LogTracer init");
+        }
+        "all" => LogTracer::builder().with_max_level(log_filter_of(logmax)).ignore_all(ignore.clone()).init().expect("LogTracer init"),
+        "default" => {
+            let mut b = tracing_log::log_tracer::Builder::new();
+            for i in &ignore {
+                b = b.ignore_crate(i.clone());
+            }
+            b.init().expect("LogTracer init");
+        }
+        "init" => LogTracer::init().expect("LogTracer init"),
+        "filter" => LogTracer::init_with_filter(log_filter_of(logmax)).expect("LogTracer init"),
+        "new" => {
+            log::set_boxed_logger(Box::new(LogTracer::new())).expect("set logger");
+            log::set_max_level(log_filter_of(logmax));
+        }
+        other => panic!("unknown init {}", other),
     }
-    b.init().expect("LogTracer init");
     // the collector(s)
     let out = Arc::new(Mutex::new(Vec::<String>::new()));
     let _dangling_dispatch = dangling.map(|h| {
@@ -306,12 +335,21 @@ fn main() {
         _keep = Some(d);
     }
     out.lock().unwrap().clear();
+    // the level conversions, both directions (identification by derived Hash / discriminant, not by the operators)
+    let lv_as_trace: Vec<String> = (1..=5u8).map(|n| lvl_num(&log_level_of(n).as_trace()).to_string()).collect();
+    let lv_as_log: Vec<String> = [Level::ERROR, Level::WARN, Level::INFO, Level::DEBUG, Level::TRACE].iter().map(|l| (l.as_log() as usize).to_string()).collect();
+    let f_as_trace: Vec<String> = (0..=5u8).map(|n| filter_num(&log_filter_of(n).as_trace()).to_string()).collect();
+    let f_as_log: Vec<String> = (0..=5i32).map(|n| (filter_of(n).unwrap().as_log() as usize).to_string()).collect();
     println!(
-        "{{\"k\":\"cfg\",\"current\":{},\"log_max\":{},\"file\":{},\"module\":{}}}",
+        "{{\"k\":\"cfg\",\"current\":{},\"log_max\":{},\"file\":{},\"module\":{},\"lv_as_trace\":[{}],\"lv_as_log\":[{}],\"f_as_trace\":[{}],\"f_as_log\":[{}]}}",
         filter_num(&LevelFilter::current()),
         log::max_level() as usize,
         jstr(file!()),
-        jstr(module_path!())
+        jstr(module_path!()),
+        lv_as_trace.join(","),
+        lv_as_log.join(","),
+        f_as_trace.join(","),
+        f_as_log.join(",")
     );
     for (i, t) in items.iter().enumerate() {
         let mut extra = String::new();
@@ -345,6 +383,33 @@ fn main() {
                         }
                     }
                 }
+            } else if t[0] == "enq" {
+                let lvl = log_level_of(t[1].parse().unwrap());
+                let target = unhex(&t[2]);
+                let md = log::Metadata::builder().level(lvl).target(&target).build();
+                let ans = log::logger().enabled(&md);
+                extra = format!(",\"ans\":{}", ans);
+            } else if t[0] == "cvm" {
+                let lvl = log_level_of(t[1].parse().unwrap());
+                let target = unhex(&t[2]);
+                let md = log::Metadata::builder().level(lvl).target(&target).build();
+                extra = format!(",\"conv\":{{{}}}", meta_json(&md.as_trace()));
+            } else if t[0] == "cvr" {
+                let lvl = log_level_of(t[1].parse().unwrap());
+                let target = unhex(&t[2]);
+                let file = unhex_opt(&t[3]);
+                let line: Option<u32> = if t[4] == "-" { None } else { Some(t[4].parse().unwrap()) };
+                let module = unhex_opt(&t[5]);
+                let args = format_args!("x");
+                let rec = log::Record::builder().level(lvl).target(&target).args(args).file(file.as_deref()).line(line).module_path(module.as_deref()).build();
+                extra = format!(",\"conv\":{{{}}}", meta_json(&rec.as_trace()));
+            } else if t[0] == "cvl" {
+                let n: u8 = t[1].parse().unwrap();
+                let target = unhex(&t[2]);
+                let fm = foreign_meta(n);
+                let md = Metadata::new("conv", &target, *fm.level(), None, None, None, FieldSet::new(&[], fm.callsite()), Kind::EVENT);
+                let lm = md.as_log();
+                extra = format!(",\"aslog\":[{},{}]", lm.level() as usize, jstr(lm.target()));
             } else {
                 // an event that is NOT a log event, straight to the current collector
                 let meta = foreign_meta(t[1].parse().unwrap());
